@@ -263,9 +263,14 @@ func (fd *Client) putItemLocked(input *dynamodb.PutItemInput) (*dynamodb.PutItem
 
 	item, err := table.Put(mapDynamoToTypesPutItemInput(input))
 
-	return &dynamodb.PutItemOutput{
-		Attributes: mapTypesToDynamoMapItem(item),
-	}, mapKnownError(err)
+	output := &dynamodb.PutItemOutput{}
+
+	// no replaced item, or none asked for: no Attributes at all
+	if item != nil {
+		output.Attributes = mapTypesToDynamoMapItem(item)
+	}
+
+	return output, mapKnownError(err)
 }
 
 // DeleteItem mock response for dynamodb
